@@ -896,7 +896,13 @@ class NetCDFRead(IORead):
         9.969209968386869e+36
 
         """
-        data_type = self.read_vars["variables"][ncvar].dtype.str[-2:]
+        dtype = self.read_vars["variables"][ncvar].dtype
+        if dtype is str or getattr(dtype, "kind", None) in "OSU":
+            # Character and string data: the default fill value is
+            # the null character, as used by `netcdf_indexer`
+            return netCDF4.default_fillvals["S1"]
+
+        data_type = dtype.str[-2:]
         return netCDF4.default_fillvals[data_type]
 
     @_manage_log_level_via_verbosity
